@@ -289,6 +289,9 @@ func DecodeAlstSampleGroupEntry(name string, length uint32, sr bits.SliceReader)
 	if remaining <= 0 {
 		return entry, sr.AccError()
 	}
+	if remaining > sr.NrRemainingBytes()/4 {
+		return nil, fmt.Errorf("alst sample group entry length %d exceeds the available data", length)
+	}
 
 	// Optional
 	entry.NumOutputSamples = make([]uint16, remaining)
